@@ -51,6 +51,10 @@ class RunObs(object):
         return '%s %s out=%r err=%r diag=%r' % (self.kind, self.status, self.out[:300], self.err[:300], self.diag[:120])
 
 
+def first_line(b):
+    return b.split(b'\n', 1)[0]
+
+
 def prefix_compatible(a, b):
     return a.startswith(b) or b.startswith(a)
 
@@ -69,7 +73,7 @@ def compare_levels(sh, path, inp, levels=(1, 2), budget=B):
             if (ol.status, ol.out, ol.err, ol.kind) != (o0.status, o0.out, o0.err, 'end'):
                 bad.append((lv, 'differs', o0.text(), ol.text()))
         elif o0.kind == 'error':
-            ok = (ol.kind == 'error' and ol.status == o0.status and ol.diag == o0.diag
+            ok = (ol.kind == 'error' and ol.status == o0.status and first_line(ol.diag) == first_line(o0.diag)
                   and o0.out.startswith(ol.out) and o0.err.startswith(ol.err))
             if not ok:
                 bad.append((lv, 'error-differs', o0.text(), ol.text()))
@@ -88,7 +92,7 @@ def compare_levels(sh, path, inp, levels=(1, 2), budget=B):
                     if (ol.status, ol.out, ol.err, ol.kind) != (o0b.status, o0b.out, o0b.err, 'end'):
                         bad.append((lv, 'differs', o0b.text(), ol.text()))
                 else:
-                    ok = (ol.kind == 'error' and ol.status == o0b.status and ol.diag == o0b.diag
+                    ok = (ol.kind == 'error' and ol.status == o0b.status and first_line(ol.diag) == first_line(o0b.diag)
                           and o0b.out.startswith(ol.out) and o0b.err.startswith(ol.err))
                     if not ok:
                         bad.append((lv, 'error-differs', o0b.text(), ol.text()))
